@@ -221,3 +221,16 @@ def touch_public(obj):
         except Exception:
             pass
     return names
+
+
+_OBJ = {}
+
+
+def staircase_of(X):
+    """the Staircase built from the bounds X = (left, right); the SAME python object X gives the SAME Staircase object again, so that cases
+    sharing their operand lists also share the operand objects (an operation that changes its operand shows in the later cases)"""
+    from pyuncertainnumber.pba.pbox_abc import Staircase
+    k = id(X)
+    if k not in _OBJ or _OBJ[k][0] is not X:
+        _OBJ[k] = (X, Staircase(np.array(X[0]), np.array(X[1])))
+    return _OBJ[k][1]
